@@ -58,7 +58,8 @@ def histories(rng, n):
         tp, tf, exps = pr
         kind = exps[0][0]
         shape = rng.choice(["repair", "introduce", "neutral+repair", "introduce+neutral+repair", "repair-in-one-note",
-                            "neutral+introduce", "repair+neutral"])
+                            "neutral+introduce", "repair+neutral", "introduce-then-neutral-in-one-note",
+                            "repair-then-neutral-in-one-note", "introduce-between-neutrals-in-one-note"])
         if shape == "repair":
             out.append((shape, kind, tf, [[diff(tf, tp)]]))
         elif shape == "introduce":
@@ -79,6 +80,17 @@ def histories(rng, n):
             c1 = neutral(rng, tf)
             t1 = editgen.apply_change(tf, *c1)
             out.append((shape, kind, tf, [[c1, diff(t1, tp)]]))
+        elif shape == "introduce-then-neutral-in-one-note":
+            # several content changes in ONE notification, the last of them changes no token
+            out.append((shape, kind, tp, [[diff(tp, tf), neutral(rng, tf)]]))
+        elif shape == "repair-then-neutral-in-one-note":
+            out.append((shape, kind, tf, [[diff(tf, tp), neutral(rng, tp)]]))
+        elif shape == "introduce-between-neutrals-in-one-note":
+            # keep it simple and exact: the fault first, then two token-neutral changes, all in one notification
+            c2 = neutral(rng, tf)
+            t2 = editgen.apply_change(tf, *c2)
+            c3 = neutral(rng, t2)
+            out.append((shape, kind, tp, [[diff(tp, tf), c2, c3]]))
         elif shape == "neutral+introduce":
             c1 = neutral(rng, tp)
             t1 = editgen.apply_change(tp, *c1)
